@@ -911,11 +911,24 @@ type validation14 struct {
 }
 
 // validate runs SetDefault (optionally) and the real ValidateExperiment(instance, old).
-func runValidate(w world, e *expv1.Experiment, old *expv1.Experiment, dflt bool) validation14 {
+// prePair is an earlier update request answered by the same validator object (same webhook process)
+type prePair struct {
+	New *expv1.Experiment `json:"new"`
+	Old *expv1.Experiment `json:"old"`
+}
+
+func runValidate(w world, e *expv1.Experiment, old *expv1.Experiment, dflt bool, pre ...prePair) validation14 {
 	var v validation14
 	cl := w.client()
 	v.gen = manifest.New(cl)
 	val := validator.New(v.gen)
+	for _, p := range pre {
+		pn := p.New.DeepCopy()
+		if dflt {
+			pn.SetDefault()
+		}
+		_ = kit.Recover(func() { _ = val.ValidateExperiment(pn, p.Old.DeepCopy()) })
+	}
 	inst := e.DeepCopy()
 	v.exp = projExp(inst)
 	if dflt {
